@@ -90,4 +90,20 @@ def dtlcpShapeOK : Bool :=
     Facts.dtlcp.saVhsShape Facts.dtlcp.saVhsFinalReturn
     Facts.dtlcp.saStoreSites Facts.dtlcp.saStoreGuards Facts.dtlcp.saServerPutSites Facts.dtlcp.saServerPutNil
 
+/-- who writes the authentication state a connection reports (`c.peerCertificates`,
+`c.verifiedChains`): on the server side `processCertsFromClient` only (the other writers are the
+client's `verifyServerCertificate` / `processServerHello`), and `processCertsFromClient` is called
+from `doFullHandshake` (the client's Certificate message) and `doResumeHandshake` (the session's
+certificates, after `checkForResumption` returned true) only.  This is what `second` relies on:
+`checkForResumption` — and anything it calls — leaves the connection untouched, so a declined
+resumption is followed by a full handshake on a fresh connection. -/
+def authStateOK (writers pcCallers : List String) : Bool :=
+  writers == ["Conn.processCertsFromClient:peerCertificates", "Conn.processCertsFromClient:verifiedChains",
+              "Conn.verifyServerCertificate:peerCertificates", "Conn.verifyServerCertificate:verifiedChains",
+              "clientHandshakeState.processServerHello:peerCertificates"] &&
+  pcCallers == ["serverHandshakeState.doFullHandshake", "serverHandshakeState.doResumeHandshake"]
+
+def tlcpAuthStateOK : Bool := authStateOK Facts.tlcp.saAuthStateWriters Facts.tlcp.saPcCallers
+def dtlcpAuthStateOK : Bool := authStateOK Facts.dtlcp.saAuthStateWriters Facts.dtlcp.saPcCallers
+
 end Gotlcp.Model.ServerAuthn
